@@ -3,8 +3,8 @@
 //! aspect, so that an export that does not parse hides nothing else:
 //!   plain     interface chain, union, enum and field deprecations, defaults, descriptions, a custom
 //!             directive definition with arguments -- nothing today's printers get wrong
-//!   reason    a deprecation reason containing a quotation mark
-//!   default   a string default containing U+001B
+//!   reason    a deprecation reason containing a quotation mark (repaired by /repo 0c87432: must round-trip)
+//!   default   a string default containing U+001B (repaired by /repo 773af2b: must round-trip)
 //!   ifacedir  an interface that implements an interface and carries a directive
 //!   dirarg    a custom directive whose argument has a description
 //!   entity    federation entities: an #[graphql(entity)] resolver, so the registry holds _Any, _Entity,
